@@ -68,13 +68,13 @@ def cheaters (v : VState) (a : Nat) : List Nat :=
 structure Block where
   d : Decided
   cheaters : List Nat
-deriving Repr
+deriving Repr, DecidableEq
 
 inductive IRes
   | wrongFrame
   | failed (e : ElErr)
   | ok (blocks : List Block)
-deriving Repr
+deriving Repr, DecidableEq
 
 /-- IndexedLachesis.Process -/
 def processIndexed (app : App) (s : IState) (e : IEvent) : IState × IRes :=
